@@ -500,7 +500,12 @@ class C20(Check):
             return out
         mask_kind = "tree" if has_tree else "source"
         out.label("e2e:mask-from-" + mask_kind, "e2e:templater=" + case.get("templater", "raw"))
-        if sorted(T) != sorted(neutral[0]) or Tw:
+        # a rule that fails internally ("Unexpected exception", C05's business) loses its results for the file; the
+        # LT05 fix logic looks at the word 'noqa' in trailing comments, so the respelled text can take another path
+        broken = {v[0] for v in T + neutral[0] if v[3].startswith("Unexpected exception")}
+        if broken:
+            out.label("e2e:rule-internal-error(C05)")
+        if sorted(v for v in T if v[0] not in broken) != sorted(v for v in neutral[0] if v[0] not in broken) or Tw:
             return out.fail("disable_noqa=True reports %s (+%s warnings); same text without directives reports %s"
                             % (sorted(set(T) ^ set(neutral[0]))[:4], Tw[:2], len(neutral[0])),
                             clause="e2e-noqa-off", mask=mask_kind)
